@@ -231,6 +231,15 @@ def data_stage_outcomes(name, build, info, n, p, nan, X):
     except Exception:
         return out  # the configuration cannot be fitted on this good data (e.g. scorer minimum size): nothing to add
     out["predict(bad) after fit(good)"] = outcome(lambda: det.predict(Xf))
+    # the other entry points that receive data
+    out["transform(bad) after fit(good)"] = outcome(lambda: det.transform(Xf))
+    if outcome(lambda: det.transform_scores(good)) != "NotImplementedError":  # SBS, CBS, the anomaliser do not offer it
+        out["transform_scores(bad) after fit(good)"] = outcome(lambda: det.transform_scores(Xf))
+    if nan:
+        # (short data are not bad data for update: the combined data are long enough)
+        Xu = Xf.copy()
+        Xu.index = pd.RangeIndex(good_n, good_n + len(Xu))
+        out["update(bad) after fit(good)"] = outcome(lambda: det.update(Xu))
     return out
 
 
